@@ -66,6 +66,12 @@ def sim_monitor(case):
     insts = sum(n for k in case['kernels'] for b in k for n in b)
     got_w = sum(fin[u]['total'] for u in (lv[2] if len(lv) > 2 else []))
     got_i = sum(fin[u]['total'] for u in (lv[3] if len(lv) > 3 else []))
+    # what was executed = what the generator wrote (counted here, from the generator's structure, never from the reader)
+    if 'kernels_run' in case and case['kernels_run'] != len(case['kernels']):
+        return '%d kernels were handed to a device, the trace has %d' % (case['kernels_run'], len(case['kernels']))
+    blocks = sum(len(k) for k in case['kernels'])
+    if 'blocks_run' in case and case['blocks_run'] != blocks:
+        return '%d thread blocks were handed to an SM, the trace has %d' % (case['blocks_run'], blocks)
     if got_w != warps:
         return 'SMs received %d warps, the trace has %d' % (got_w, warps)
     if got_i != insts:
@@ -75,7 +81,8 @@ def sim_monitor(case):
 
 def sim_strip(c):
     return {'gpus': c['gpus'], 'freq': c['freq'], 'kernels': c['kernels'], **({'tag': c['tag']} if c.get('tag') else {}),
-            **({'via_files': True} if c.get('via_files') else {})}
+            **({'via_files': True} if c.get('via_files') else {}),
+            **{k: c[k] for k in ('file_style', 'name_len', 'inst_addrs') if c.get(k)}}
 
 
 def sim_nontrivial(c):
